@@ -140,7 +140,9 @@ func HMarshalDeterministicDecoded() {
 		return
 	}
 	vr.Assert("c14.detdec.set", a.SetAttr(a1, VGenAkaValue(a1, -1)) == nil && a.SetAttr(a2, VGenAkaValue(a2, -1)) == nil)
+	tok := vr.FrameBegin(a)
 	b1, err1 := d.Marshal()
+	vr.Assert("c14.detdec.encode-writes-nothing", vr.FrameUnchanged(tok))
 	b2, err2 := d.Marshal()
 	vr.Assert("c14.detdec.noerr", err1 == nil && err2 == nil)
 	if err1 == nil && err2 == nil {
